@@ -5,6 +5,7 @@ use clvmr::allocator::Allocator;
 
 mod alloc_model;
 mod findings;
+mod finding_f3;
 mod search;
 mod serde_find;
 mod decoder_find;
